@@ -525,7 +525,7 @@ func (e *SpecEnv) index(a, i Val, ex Expr) Val {
 	switch u := tyUnder(a).(type) {
 	case *types.Slice:
 		hn, hs := x.elemHeap(u.Elem())
-		return x.valFromTerm(sel(sel(x.heap(e.st, hn, hs), "(s_arr "+a.T+")"), "(+ (s_off "+a.T+") "+i.T+")"), u.Elem())
+		return x.valFromTerm(app(x.atFn(u.Elem()), x.heap(e.st, hn, hs), a.T, i.T), u.Elem())
 	case *types.Array:
 		return x.valFromTerm(sel(a.T, i.T), u.Elem())
 	case *types.Map:
@@ -671,6 +671,9 @@ func (e *SpecEnv) call(c *ECall) Val {
 		args = append(args, e.eval(a))
 	}
 	defPkg := e.x.L.typesPkg(pd.Pkg)
+	if pd.Rec {
+		return e.recCall(pd, args)
+	}
 	if pd.Body != nil {
 		if e.depth > 40 {
 			e.fail("spec function expansion too deep (recursive?) at %s", c.Fn)
@@ -744,3 +747,135 @@ func (x *Exec) cardFn(keySort string) string {
 func (e *SpecEnv) evalBool(ex Expr) string {
 	return e.boolTerm(ex)
 }
+
+
+// ---------------------------------------------------------------------------------------------
+// recursive spec functions: uninterpreted function + one-level unfolding axiom (fuel 1)
+
+type recInfo struct {
+	uf     string
+	heaps  []string // heap names the body reads, in order
+	hsorts []string
+	psorts []string
+	ret    *STy
+	busy   bool
+	pass1  bool
+}
+
+func (x *Exec) scratchState() *State {
+	st := &State{heaps: map[string]string{}, cells: map[int]Val{}, iters: map[int]string{}, declared: map[string]bool{}, sc: &script{}}
+	st.frames = []*Frame{{env: nil}}
+	return st
+}
+
+func (e *SpecEnv) recCall(pd *PureDef, args []Val) Val {
+	x := e.x
+	if x.recs == nil {
+		x.recs = map[string]*recInfo{}
+	}
+	ri := x.recs[pd.Name]
+	if ri == nil {
+		ri = &recInfo{uf: "r_" + pd.Name, busy: true, pass1: true}
+		x.recs[pd.Name] = ri
+		defPkg := x.L.typesPkg(pd.Pkg)
+		if defPkg == nil {
+			defPkg = e.pkg
+		}
+		mk := func(st *State) (*SpecEnv, []string) {
+			n := &SpecEnv{x: x, st: st, vars: map[string]Val{}, pkg: defPkg, what: "rec " + pd.Name}
+			var names []string
+			for i, p := range pd.Params {
+				ty := n.resolveType(p.Ty)
+				nm := fmt.Sprintf("rp_%s_%d", pd.Name, i)
+				names = append(names, nm)
+				if ty.G != nil {
+					n.vars[p.Name] = x.valFromTerm(nm, ty.G)
+				} else {
+					n.vars[p.Name] = Val{T: nm, M: ty.M}
+				}
+			}
+			return n, names
+		}
+		// pass 1: discover the heaps the body reads
+		s1 := x.scratchState()
+		n1, _ := mk(s1)
+		for _, p := range pd.Params {
+			ri.psorts = append(ri.psorts, n1.sortOfS(n1.resolveType(p.Ty)))
+		}
+		ri.ret = n1.resolveType(pd.Ret)
+		ri.heaps = nil
+		n1.eval(pd.Body)
+		for h := range s1.heaps {
+			if h != "$alloc" {
+				ri.heaps = append(ri.heaps, h)
+			}
+		}
+		sortStrings(ri.heaps)
+		for _, h := range ri.heaps {
+			ri.hsorts = append(ri.hsorts, x.heapSort[h])
+		}
+		ri.busy, ri.pass1 = false, false
+		// pass 2: the unfolding axiom
+		s2 := x.scratchState()
+		var binders, hvars []string
+		for i, h := range ri.heaps {
+			hv := fmt.Sprintf("rh_%s_%d", pd.Name, i)
+			hvars = append(hvars, hv)
+			s2.heaps[h] = hv
+			binders = append(binders, fmt.Sprintf("(%s %s)", hv, ri.hsorts[i]))
+		}
+		n2, pn := mk(s2)
+		for i, nm := range pn {
+			binders = append(binders, fmt.Sprintf("(%s %s)", nm, ri.psorts[i]))
+		}
+		allSorts := append(append([]string{}, ri.hsorts...), ri.psorts...)
+		rs := n2.sortOfS(ri.ret)
+		x.ctx.addDecl(ri.uf, fmt.Sprintf("(declare-fun %s (%s) %s)", ri.uf, strings.Join(allSorts, " "), rs))
+		x.ctx.addDecl(ri.uf+"_0", fmt.Sprintf("(declare-fun %s_0 (%s) %s)", ri.uf, strings.Join(allSorts, " "), rs))
+		ri.busy = true // recursive calls inside the body go to the fuel-0 symbol
+		body := x.termOf(s2, n2.eval(pd.Body))
+		ri.busy = false
+		lhs := app(ri.uf, append(append([]string{}, hvars...), pn...)...)
+		lhs0 := app(ri.uf+"_0", append(append([]string{}, hvars...), pn...)...)
+		if len(binders) > 0 {
+			x.ctx.addAxiom(ri.uf, fmt.Sprintf("(assert (forall (%s) (! (and (= %s %s) (= %s %s)) :pattern (%s))))", strings.Join(binders, " "), lhs, body, lhs0, lhs, lhs))
+		}
+		x.trustedRec(pd)
+	}
+	var terms []string
+	if ri.pass1 {
+		// pass 1 of the definition: result is irrelevant, only heap reads matter
+		n := &SpecEnv{x: x, pkg: e.pkg, what: e.what}
+		rt := n.resolveType(pd.Ret)
+		if rt.G != nil {
+			return x.zeroVal(rt.G)
+		}
+		return Val{T: "0", M: rt.M}
+	}
+	for i, h := range ri.heaps {
+		terms = append(terms, x.heap(e.st, h, ri.hsorts[i]))
+	}
+	for i, a := range args {
+		_ = i
+		terms = append(terms, e.term(a, Val{}))
+	}
+	fn := ri.uf
+	if ri.busy {
+		fn = ri.uf + "_0"
+	}
+	r := app(fn, terms...)
+	if ri.ret.G != nil {
+		return x.valFromTerm(r, ri.ret.G)
+	}
+	return Val{T: r, M: ri.ret.M}
+}
+
+func sortStrings(s []string) {
+	for i := 1; i < len(s); i++ {
+		for j := i; j > 0 && s[j] < s[j-1]; j-- {
+			s[j], s[j-1] = s[j-1], s[j]
+		}
+	}
+}
+
+func (x *Exec) trustedRec(pd *PureDef) {}
